@@ -146,6 +146,6 @@ func init() {
 		Gen: c20Gen, Batch: 3, Children: 5, PerCase: 30 * time.Second, Base: 180 * time.Second,
 		Judge: c20Judge, Finish: c20Finish,
 		Rule:        "a case = one concurrent round with n in {4,16,64} goroutines, race detector on host and plugin: (a) on an in-process MuxBroker / GRPCBroker / multiplexed pair: accept/dial pairs on distinct ids reserved with NextId (sequential under multiplexing), concurrent Dispense/calls/Ping, NextId hammering from both sides; (b) on one real Client: Start, Client, Exited, ID, ReattachConfig, NegotiatedVersion (only after a Start returned), Protocol, Dispense of three plugin names + calls + brokered connections served by the plugin; every other round with AutoMTLS against a plugin that logs to stderr from process start, the others with a second host reattached to the plugin and write commands that make it print to stdout/stderr; in a third of the rounds Close / server Stop / two concurrent Kill calls race with the in-flight operations. (c) process-wide state: goroutines creating managed clients while CleanupClients runs. Seeded 0-2 ms jitter at every hook point. Oracles: race-detector logs of both processes attributed to go-plugin by accessing frame, host death, recovered panics, panic/fatal lines on the plugin's stderr, duplicates in the multiset of NextId results. Class = kind, goroutines, shutdown race",
-		Assumptions: []string{"operation failures are not judged here (expected under shutdown races; routing is C06-C08's)", "a clean race-detector run covers only the accesses and schedules this workload produced"},
+		Assumptions: []string{"operation failures are not judged here (expected under shutdown races; routing is C06-C08's)", "a clean race-detector run covers only the accesses and schedules this workload produced", "a round or host child that does not finish is inconclusive here, not a violation: the statement excludes races, double closes, panics and duplicate ids, not hangs (C03, C04, C09, C18 decide liveness)"},
 	})
 }
